@@ -47,9 +47,22 @@ var c03ModeItems = []string{"dir-sticky", "dir-setgid", "file-setuid", "file-sti
 var c03FracItems = []string{"frac-file", "frac-dir", "frac-link", "frac-tree", "frac-config"}
 
 var c03Names = map[string]string{"plain": "data.bin", "space": "with space.bin", "percent": "100%s_done%d.bin", "hash": "#hash.bin", "backslash": `back\slash.bin`, "unicode": "ünï.bin"}
-var c03NameOrder = []string{"plain", "space", "percent", "hash", "backslash", "unicode"}
+var c03NameOrder = []string{"plain", "space", "percent", "hash", "backslash", "unicode", "topdotdir", "topdotfile", "topdots"}
+
+// c03TopNames: whole destinations whose first component starts with dots (the digest lists name them without the
+// leading "./" or "/" of the archive member - and without losing anything else).
+var c03TopNames = map[string]string{"topdotdir": "/.c03-top/", "topdotfile": "/.c03-", "topdots": "/...c03/.."}
 
 func c03Entry(item string, i int, nameClass string) model.Entry {
+	if pre, ok := c03TopNames[nameClass]; ok && i == 0 {
+		e := c03EntryAt(item, i, "plain")
+		e.Dst = pre + strings.TrimPrefix(e.Dst, "/opt/c03/")
+		return e
+	}
+	return c03EntryAt(item, i, nameClass)
+}
+
+func c03EntryAt(item string, i int, nameClass string) model.Entry {
 	base := fmt.Sprintf("/opt/c03/%d-", i)
 	if strings.HasPrefix(item, "size:") {
 		return model.Entry{Src: "sizes/s" + strings.TrimPrefix(item, "size:") + ".bin", Dst: base + "sized.bin"}
